@@ -2,6 +2,8 @@ package rules
 
 import (
 	"fmt"
+	"go/constant"
+	"sort"
 	"strings"
 
 	"golang.org/x/tools/go/ssa"
@@ -23,6 +25,7 @@ var wbits = []int64{0, 8, 9, 10, 11, 12, 13, 14, 15}
 func runC14(c *Ctx) {
 	// the negotiator is driven by the server's scan of the extensions header
 	negotiateExtensionsRules(c, "C14")
+	c14ParamError(c)
 	c14Negotiate(c)
 	c14Parse(c)
 	c14Option(c)
@@ -623,4 +626,64 @@ func (c *Ctx) foldWindowBits(rule string) []string {
 		return nil
 	}
 	return out
+}
+
+// c14ParamError: Parse refuses an offer by returning paramError(reason, key, value).
+// Whatever reason string a call site passes, the result is a non-nil error - a
+// reason the function does not know must not turn the refusal into acceptance.
+func c14ParamError(c *Ctx) {
+	const rule = "C14.param-error"
+	c.R.Rule(rule, 1, "paramError returns a non-nil error for every reason its callers pass")
+	f := c.fn(rule, wsflate, "paramError")
+	if f == nil {
+		return
+	}
+	reasons := map[string]bool{}
+	for _, fn := range c.P.AllModuleFuncs() {
+		for _, b := range fn.Blocks {
+			for _, in := range b.Instrs {
+				ci, ok := in.(ssa.CallInstruction)
+				if !ok || ci.Common().StaticCallee() == nil || fold.CanonFuncName(ci.Common().StaticCallee()) != wsflate+".paramError" || len(ci.Common().Args) == 0 {
+					continue
+				}
+				if k, ok := ci.Common().Args[0].(*ssa.Const); ok && k.Value != nil {
+					reasons[constant.StringVal(k.Value)] = true
+				} else {
+					reasons["\x00symbolic"] = true
+				}
+			}
+		}
+	}
+	var problems []string
+	var rs []string
+	for r := range reasons {
+		rs = append(rs, r)
+	}
+	sort.Strings(rs)
+	if len(rs) == 0 {
+		problems = append(problems, "undecided: no call of paramError found")
+	}
+	for _, r := range rs {
+		r := r
+		m := c.machine()
+		m.Models["fmt.Errorf"] = func(cl *fold.Call) fold.Val { return fold.Sym{Name: "param-error", NonNil: true} }
+		m.Models["errors.New"] = func(cl *fold.Call) fold.Val { return fold.Sym{Name: "param-error", NonNil: true} }
+		ps := m.Explore(f, func(mm *fold.Machine) []fold.Val {
+			var reason fold.Val = fold.Str(r)
+			if r == "\x00symbolic" {
+				reason = fold.SymSeq{Name: "reason", IsStr: true, Len: fold.Range(0, 100)}
+			}
+			return []fold.Val{reason, fold.SymSeq{Name: "key", Len: fold.Range(0, 100)}, fold.SymSeq{Name: "val", Len: fold.Range(0, 100)}}
+		}, nil)
+		for _, p := range ps {
+			if p.Abort != "" || p.Panic {
+				problems = append(problems, "undecided: "+p.Abort+panicNote(p))
+				continue
+			}
+			if c.errName(p.Ret) == "nil" {
+				problems = append(problems, fmt.Sprintf("paramError(%q, ...) returns nil: Parse takes the offending parameter for acceptable", r))
+			}
+		}
+	}
+	c.verdict(rule, rule+"/paramError", c.P.FuncPos(f), uniq(problems), fmt.Sprintf("non-nil for the %d reasons passed by Parse", len(rs)))
 }
